@@ -7,7 +7,7 @@
     completed before the publish began is in the table when the publication is fanned out" and
     "the common order extends each publisher's order" are checked on implementation traces by
     the search acceptor (client-side stamps against the broker's steps), not proved. *)
-From Hannibal Require Import Model.Sys Chk.C09 Inv.C09.
+From Hannibal Require Import Model.Sys Chk.C09 Inv.C09 Chk.C09q Inv.C09q.
 
 (** Every state the acceptor reaches, on any trace whatsoever, is well-formed: tables hold a
     subscriber at most once (re-subscribing does not duplicate), and in a fan-out under way the
@@ -77,3 +77,63 @@ Example C09_acceptor_rejects :
               EvBroker 9 BHolds 2 6; EvBroker 9 BTarget 1 5; EvPubCopy 1 20 7 3 9 5;
               EvBroker 9 BTarget 2 6; EvPubCopy 1 21 7 3 9 6; EvBroker 9 BPubEnd 0 0] = true.
 Proof. vm_compute. auto. Qed.
+
+(** * The broker's mailbox (machine of Chk/C09q.v)
+
+    A publish / subscribe / unsubscribe is a waiting send into the unbounded mailbox of the topic's
+    broker and is accepted in the very step of the client task in which it returns; [chk_C09q]
+    takes the [EvTopicRet o true] events as the order of acceptance and accepts a trace only if
+    the broker's own steps take the operations out in that order and hold senders only for
+    subscribers of the table those operations produce. It runs, extracted, on every
+    implementation trace of the broker family. About every run of it: *)
+
+(** the operations the broker has processed are, at every moment, a prefix of the operations its
+    mailbox accepted, in the order of acceptance: nothing is overtaken, nothing is skipped -
+    so what returned before another operation began is processed before it, for every client,
+    and the publications of one publisher are fanned out in the order it made them ... *)
+Theorem C09_mailbox_processed_in_order_of_acceptance :
+  forall tr m, m09q_run m09q_init tr = Some m ->
+  forall topic, lof (q_enq m) topic = lof (q_done m) topic ++ lof (q_wait m) topic.
+Proof. intros tr m H. exact (wfq_run _ _ _ wfq_init H). Qed.
+Print Assumptions C09_mailbox_processed_in_order_of_acceptance.
+
+Theorem C09_ith_processed_is_ith_accepted :
+  forall tr m topic i t, m09q_run m09q_init tr = Some m ->
+  nth_error (lof (q_done m) topic) i = Some t -> nth_error (lof (q_enq m) topic) i = Some t.
+Proof. intros tr m topic i t H. apply ith_done_is_ith_accepted. exact (wfq_run _ _ _ wfq_init H). Qed.
+Print Assumptions C09_ith_processed_is_ith_accepted.
+
+(** ... when the fan-out of a publication begins, a subscriber whose latest processed operation
+    is a subscription is in the table (its subscription was accepted before the publication and
+    nothing withdrew it) ... *)
+Theorem C09_subscribed_before_means_in_the_table :
+  forall m b sp x m' topic l1 o a l2,
+  m09q_step m (EvBroker b BPubBegin sp x) = Some m' -> q_bt m b = Some topic ->
+  lof (q_done m) topic = l1 ++ (o, TSubscribe, a) :: l2 -> (forall o', ~ In (o', TUnsubscribe, a) l2) ->
+  In a (table_after (lof (q_done m') topic) []).
+Proof. exact fanout_starts_with_subscriber_in_table. Qed.
+Print Assumptions C09_subscribed_before_means_in_the_table.
+
+(** ... and the broker never holds a sender - hence never makes a clone - for an actor whose
+    latest processed operation is an unsubscription: nothing is delivered after a completed
+    unsubscribe. *)
+Theorem C09_nothing_after_a_processed_unsubscribe :
+  forall m b a h m' topic l1 o l2,
+  m09q_step m (EvBroker b BHolds a h) = Some m' -> q_bt m b = Some topic ->
+  lof (q_done m) topic = l1 ++ (o, TUnsubscribe, a) :: l2 -> (forall o', ~ In (o', TSubscribe, a) l2) -> False.
+Proof. exact no_sender_held_after_unsubscribe. Qed.
+Print Assumptions C09_nothing_after_a_processed_unsubscribe.
+
+Example C09q_acceptor_rejects :
+  (* subscribe by a5 returns, publish o2 returns: the broker (a9, topic 1) must process the
+     subscription first ... *)
+  chk_C09q [EvTopicOp 1 0 TSubscribe 1 5; EvTopicRet 1 true; EvTopicOp 2 0 TPublish 1 77; EvTopicRet 2 true;
+            EvBroker 9 BTopic 1 0; EvBroker 9 BSub 5 0; EvBroker 9 BPubBegin 3 0; EvBroker 9 BHolds 5 20] = true
+  (* ... not the publication before it *)
+  /\ chk_C09q [EvTopicOp 1 0 TSubscribe 1 5; EvTopicRet 1 true; EvTopicOp 2 0 TPublish 1 77; EvTopicRet 2 true;
+            EvBroker 9 BTopic 1 0; EvBroker 9 BPubBegin 3 0] = false
+  (* and no sender is held for an actor that unsubscribed *)
+  /\ chk_C09q [EvTopicOp 1 0 TSubscribe 1 5; EvTopicRet 1 true; EvTopicOp 2 0 TUnsubscribe 1 5; EvTopicRet 2 true;
+            EvTopicOp 3 0 TPublish 1 77; EvTopicRet 3 true;
+            EvBroker 9 BTopic 1 0; EvBroker 9 BSub 5 0; EvBroker 9 BUnsub 5 0; EvBroker 9 BPubBegin 4 0; EvBroker 9 BHolds 5 20] = false.
+Proof. vm_compute. repeat split. Qed.
